@@ -1,4 +1,5 @@
 import Svgbob.Proofs.RectSound
+import Svgbob.Proofs.RectStrokes
 /-!
 # C05 — rectangles are recognised completely and only where a box is drawn
 
@@ -29,6 +30,21 @@ theorem sides_form_a_box (frags : List Frag) :
       [(⟨minX, minY⟩, ⟨maxX, minY⟩), (⟨minX, maxY⟩, ⟨maxX, maxY⟩),
        (⟨minX, minY⟩, ⟨minX, maxY⟩), (⟨maxX, minY⟩, ⟨maxX, maxY⟩)] :=
   ⟨_, _, _, _, rfl⟩
+
+/-- **the rectangle covers exactly what was drawn**: when the group consists of proper grid lines
+(as every group of table lines does), the outline of the emitted rectangle is — as a set of rational
+points — the union of the lines of the group: no side of the rectangle is invented, and no stroke
+of the group (an overhang, a rung, a tail) disappears into it -/
+theorem rect_outline_is_exactly_the_group (frags : List Frag) (r : Frag)
+    (h : endorseRect frags = some r) (hok : ∀ f ∈ frags, f.StrokeOk) (P : RPt) :
+    r.outline P ↔ ∃ f ∈ frags, f.strokes P :=
+  endorseRect_strokes frags r h hok P
+
+/-- …and such a group is nothing but the four sides: every member is one of them -/
+theorem group_is_the_four_sides (frags : List Frag) (r : Frag) (h : endorseRect frags = some r)
+    (hok : ∀ f ∈ frags, f.StrokeOk) :
+    ∀ f ∈ frags, ∃ se ∈ boundsSides frags, ∃ b, f = Frag.line se.1 se.2 b :=
+  endorseRect_group_is_sides frags r h hok
 
 /-! Tests (labelled as tests): a proper box is endorsed; a ladder and an H with two bars are not. -/
 def boxLines : List Frag :=
